@@ -126,6 +126,16 @@ def gen_structure(rng, name=None, natoms=None):
             if rng.random() < 0.15:
                 part = rng.choice([0, 1, 2, -1, 0])
             atoms.append({'el': el, 'xyz': [round(x, 5) for x in p], 'part': part})
+    # disordered hydrogen atoms: the parent in PART 0 (or in a PART), the hydrogens split over PART 1 / PART 2 (or PART 0)
+    if rng.random() < 0.35:
+        parents = [a for a in atoms if a['el'] != 'H']
+        for par in rng.sample(parents, min(len(parents), rng.randint(1, 2))):
+            base = mv(M, par['xyz'])
+            for hp in ((1, 2) if par['part'] == 0 else (0,)):
+                v = [rng.gauss(0, 1) for _ in range(3)]
+                ln = math.sqrt(sum(x * x for x in v)) or 1.0
+                r = rng.uniform(0.85, 1.05)
+                atoms.append({'el': 'H', 'xyz': [round(x, 5) for x in mv(Mi, [base[k] + v[k] / ln * r for k in range(3)])], 'part': hp})
     for i, a in enumerate(atoms):
         a['name'] = '%s%d' % (a['el'], i + 1)
     qpeaks = [{'name': 'Q%d' % (i + 1), 'xyz': [round(rng.uniform(0, 1), 4) for _ in range(3)]} for i in range(rng.randint(0, 2))]
